@@ -34,7 +34,7 @@ ASSUMPTIONS = [
 ]
 ANCHORS = ["dagrt.data:unify", "dagrt.data:SymbolKindTable.set", "dagrt.data:SymbolKindFinder.__call__",
            "dagrt.data:KindInferenceMapper.map_sum"]
-MIN_NONTRIVIAL = {"quick": 150, "thorough": 3000}
+MIN_NONTRIVIAL = {"quick": 1200, "thorough": 6000}
 REQUIRED_COUNTERS = {"quick": ["unify_pairs", "unify_triples", "presentations_compared",
                                "unify_contract_evaluations", "hashseed_tables_compared"],
                      "thorough": ["unify_pairs", "unify_triples", "presentations_compared",
@@ -53,7 +53,7 @@ def _last_json(stdout):
 def plan(tier, seed):
     sh = [{"kind": "algebra"}]
     n = 16
-    per = 30 if tier == "quick" else 500
+    per = 60 if tier == "quick" else 700
     for k in range(n):
         sh.append({"kind": "prog", "seed": f"C14:{seed}:{k}", "count": per,
                    "nperm": 12 if tier == "quick" else 40,
